@@ -168,6 +168,8 @@ def run_case(case):
     limit = rng.choice([None, None, 1, max(1, nrows - 1), max(1, nrows), nrows + 5, 0])
     if fam == 'cast_schema' and bad_rows and rng.random() < 0.5:
         limit = max(1, min(bad_rows))       # the first offending row is the one right AFTER the limit
+    elif fam == 'cast_schema' and bad_rows and rng.random() < 0.5:
+        limit = min(nrows - 1, max(bad_rows) + 2)      # offending rows BEFORE the limit, valid rows after it
     name = rng.choice([None, 'custom-name'])
     kw = {'strip': strip}
     if delim != ',':
@@ -301,7 +303,8 @@ def run_case(case):
     # expected rows
     fobj = tableschema.Schema(rd['schema']).fields if fam == 'cast_schema' else None
     exp = []
-    for i, cells in enumerate(rows[:exp_n] if fam != 'cast_schema' else rows):
+    # limit_rows is "how many rows of the source to stream": the first n data lines, whatever on_error does with them
+    for i, cells in enumerate(rows[:exp_n]):
         if fam == 'cast_schema':
             out, bad = {}, []
             for n, f, c in zip(names, fobj, cells):
@@ -328,7 +331,6 @@ def run_case(case):
                 add('missing_raise', 'offending row %r before limit but run returned %d rows'
                     % (sorted(bad_rows)[:3], len(grows)))
                 return dict(nontrivial=True, violations=viol, cov=cov, counters=counters)
-        exp = exp[:limit] if limit is not None else exp
     if len(grows) != len(exp):
         add('row_count', '%d rows expected %d (limit_rows=%r, file has %d data lines)'
             % (len(grows), len(exp), limit, nrows), '%s/limit' % fam if limit is not None else fam)
